@@ -33,6 +33,8 @@ def run_demo(files):
     for f in files:
         if f.endswith((".rs", ".yaml")):
             shutil.copy(f, os.path.join(WT, crate, "tests", os.path.basename(f)))
+        if f.endswith(".yaml") and os.path.isdir(os.path.join(WT, "tests")):
+            shutil.copy(f, os.path.join(WT, "tests", os.path.basename(f)))      # some demonstrations read their input from tests/
     for f in rs:
         ran = True
         name = os.path.basename(f)[:-3]
